@@ -792,6 +792,14 @@ pub fn run_authz_model(cfg: &ScenCfg, out: &mut RunOut) {
             i += k;
         }
     }
+    // fault: the peer's receive window shrinks after the handshake and it does not read for a while after
+    // each burst (the session is blocked writing replies - error replies included - for seconds)
+    let stall: Option<(usize, u64)> = if chance(1, 4) { Some((1 + choose(40) as usize, [1u64, 6, 30][choose(3) as usize])) } else { None };
+    if stall.is_some() {
+        kernel::count("fault_peer_stall");
+        out.probe("tls_peer_stalls_between_bursts");
+    }
+    let nbursts = writes.len() as u64;
     let got = Arc::new(Mutex::new((Vec::<u8>::new(), false, String::new())));
     {
         let got = got.clone();
@@ -810,6 +818,13 @@ pub fn run_authz_model(cfg: &ScenCfg, out: &mut RunOut) {
                 }
             };
             got.lock().unwrap().1 = true;
+            if let Some((cap, _)) = stall {
+                kernel::with(|w| {
+                    if let Some(c) = w.net.conns.get_mut(0) {
+                        c.pipes[1].capacity = cap;
+                    }
+                });
+            }
             for (f, cut) in writes.into_iter() {
                 let ok = match cut {
                     Some(cut) => stream.write_all(&f[..cut]).await.is_ok() && stream.flush().await.is_ok() && stream.write_all(&f[cut..]).await.is_ok(),
@@ -817,6 +832,9 @@ pub fn run_authz_model(cfg: &ScenCfg, out: &mut RunOut) {
                 };
                 if !ok {
                     return;
+                }
+                if let Some((_, secs)) = stall {
+                    simtokio::time::sleep(Duration::from_secs(secs)).await;
                 }
                 let mut buf = [0u8; 300];
                 // collect whatever comes back within 20 ms of virtual time
@@ -831,9 +849,9 @@ pub fn run_authz_model(cfg: &ScenCfg, out: &mut RunOut) {
             simtokio::time::sleep(Duration::from_secs(1)).await;
         });
     }
-    kernel::run_until(|| false, (n as u64 + 2) * 40 * MS + 500 * MS, 400_000);
+    kernel::run_until(|| false, (n as u64 + 2) * 40 * MS + 500 * MS + stall.map(|(_, s)| s * 1000 * MS * (nbursts + 1)).unwrap_or(0), 400_000);
     let (bytes, hs, err) = got.lock().unwrap().clone();
-    let desc = format!("role={:?} policy={:?} units={:?}", role.chars().take(12).collect::<String>(), policy, units.keys().collect::<Vec<_>>());
+    let desc = format!("role={:?} policy={:?} units={:?}{}", role.chars().take(12).collect::<String>(), policy, units.keys().collect::<Vec<_>>(), stall.map(|(c, s)| format!(" peer window {} bytes, silent {} s after each burst", c, s)).unwrap_or_default());
     if !hs {
         out.violate("C09", "valid_peer_refused", format!("{}: handshake failed: {}", desc, err));
         return;
